@@ -124,8 +124,8 @@ theorem processBlock_oe (s : State) (b : BlockAbs) (k : Nat) (hk : s.orphans.len
             · exact ⟨by have := h2.1; rw [h1o] at this; show s2.orphans.length ≤ k + 1; omega, h2.2.trans h1e⟩
             · exact ⟨by have := h2.1; rw [h1o] at this; show s2.orphans.length ≤ k + 1; omega, h2.2.trans h1e⟩
 
-theorem processHeader_oe (s : State) (b : BlockAbs) : SameOE s (processHeader s b).1 := by
-  unfold processHeader
+theorem processHeaderCore_oe (s : State) (b : BlockAbs) : SameOE s (processHeaderCore s b).1 := by
+  unfold processHeaderCore
   split
   · exact ⟨rfl, rfl⟩
   · split
@@ -133,6 +133,11 @@ theorem processHeader_oe (s : State) (b : BlockAbs) : SameOE s (processHeader s 
     · split
       · split <;> exact ⟨rfl, rfl⟩
       · split <;> exact ⟨rfl, rfl⟩
+
+theorem processHeader_oe (s : State) (b : BlockAbs) : SameOE s (processHeader s b).1 := by
+  obtain ⟨x, hx⟩ := processHeader_shape s b
+  rw [hx]
+  exact processHeaderCore_oe s b
 
 theorem runFrom_noEvict (ops : List Op) (s : State) (k : Nat) (hdo : deliveryOnly ops)
     (hk : s.orphans.length ≤ k) (hb : k + blockCount ops ≤ maxOrphans) (he : s.evicted = []) :
@@ -407,9 +412,9 @@ theorem run_invalidate_excludes (ops : List Op) (h : Hash) (c : Option Hash) (hd
   obtain ⟨s1, ok⟩ := r
   cases ok <;> exact this
 
-theorem processHeader_lookup_mono (s : State) (b : BlockAbs) (h : Hash) (n : Node)
-    (hl : lookup s.idx h = some n) : lookup (processHeader s b).1.idx h = some n := by
-  unfold processHeader
+theorem processHeaderCore_lookup_mono (s : State) (b : BlockAbs) (h : Hash) (n : Node)
+    (hl : lookup s.idx h = some n) : lookup (processHeaderCore s b).1.idx h = some n := by
+  unfold processHeaderCore
   split
   · exact hl
   · split
@@ -420,6 +425,12 @@ theorem processHeader_lookup_mono (s : State) (b : BlockAbs) (h : Hash) (n : Nod
         split
         · exact hl
         · exact lookup_cons_of_some hnone hl
+
+theorem processHeader_lookup_mono (s : State) (b : BlockAbs) (h : Hash) (n : Node)
+    (hl : lookup s.idx h = some n) : lookup (processHeader s b).1.idx h = some n := by
+  obtain ⟨x, hx⟩ := processHeader_shape s b
+  rw [hx]
+  exact processHeaderCore_lookup_mono s b h n hl
 
 /-- first-seen rule over any number of further deliveries -/
 theorem runFrom_adv {U : List BlockAbs} (hwf : WF U) :
